@@ -1,9 +1,9 @@
 """Regenerate every generated Lean file from the current /repo (run after /repo changes back)."""
-from . import callsites, constants, fs_effects, options, pyfun, xmlranges
+from . import callsites, constants, fs_effects, hdrdiff, options, pyfun, xmlranges
 
 
 def main():
-    for m in (constants, fs_effects, options, xmlranges, pyfun, callsites):
+    for m in (constants, fs_effects, options, xmlranges, pyfun, hdrdiff, callsites):
         print(m.__name__, m.regenerate())
 
 
